@@ -394,7 +394,11 @@ def checkInterest (H : Bytes → Bytes) (s : InterestSt) : Bool :=
       match name.getLast? with
       | none => false
       | some c => c.typ = 2 ∧ c.val = H s.digestCovered
-    else true
+    else
+      -- no parameters: a trailing ParametersSha256Digest component is rejected
+      match name.getLast? with
+      | some c => c.typ ≠ 2
+      | none => true
 
 /-! ### Packet -/
 
